@@ -226,9 +226,16 @@ def _unique_name(params: Any) -> str:
         keys = params.__params__.keys()
         name = " ".join(f"{k}={str(getattr(params, k))}" for k in keys)
 
+        # String values which include our separators, or look like another type's value,
+        # could make the readable names of two different parameter-sets coincide.
+        vals = [getattr(params, k) for k in keys]
+        ambiguous = any(
+            isinstance(v, str) and (v == "None" or " " in v or "=" in v) for v in vals
+        )
+
         # These names must also be limited in length, for sake of our favorite output formats.
         # If the generated name is too long, use the hashing method below instead
-        if len(name) < 128:  # Probably(?) a reasonable length limit
+        if len(name) < 128 and not ambiguous:  # Probably(?) a reasonable length limit
             return name
 
     # Non-scalar cases generally include nested `@paramclasses` or sequences,
@@ -268,7 +275,12 @@ def hdl21_naming_encoder(obj: Any) -> Any:
     from .instance import Instance
     from .generator import Generator
     from .primitives import Primitive, PrimitiveCall
+    from .prefix import Prefixed, Prefix
 
+    if isinstance(obj, Prefixed):
+        # Name by value, so that equal numbers written with different prefixes, e.g. `1000*m` and `1*UNIT`,
+        # which are equal and share a `Generator` cache entry, also share a name.
+        return str(obj.scale(Prefix.UNIT).number.normalize())
     if isinstance(obj, (Instance,)):
         # Not supported as parameters
         raise RuntimeError(f"Invalid `hdl21.paramclass` field {obj}")
